@@ -29,6 +29,7 @@ type Case struct {
 	Class   string    `json:"class"`
 	Reroot  int       `json:"reroot,omitempty"`  // > 0: the tree is first re-rooted in memory at an inner node
 	History []ops.Op  `json:"history,omitempty"` // edits applied in memory before the operation (the model is read back afterwards)
+	PreUse  int       `json:"pre_use,omitempty"` // > 0: the list of names was used before on the tree without every second listed tip
 }
 
 func treeOpts(t *rapid.T, thorough bool) gen.Opts {
@@ -114,6 +115,9 @@ func genCase(t *rapid.T, thorough bool) Case {
 	if rapid.IntRange(0, 4).Draw(t, "hashistory") == 2 {
 		c.History = ops.GenHistory(t, 4)
 	}
+	if rapid.IntRange(0, 3).Draw(t, "preuse") == 1 {
+		c.PreUse = rapid.IntRange(1, 2).Draw(t, "preusesel")
+	}
 	return c
 }
 
@@ -150,7 +154,23 @@ func check(c Case) error {
 		given[n] = true
 	}
 	keep := func(n string) bool { return given[n] == c.Revert }
-	if err := t.RemoveTips(c.Revert, c.Names...); err != nil {
+	arg := append([]string(nil), c.Names...)
+	if c.PreUse > 0 && len(arg) > 0 {
+		// the same list was first used on another tree of a stream: this tree without some of the
+		// listed tips, or with further tips (whatever that call did, this one must not notice)
+		drop := map[string]bool{}
+		for i, n := range c.Names {
+			if (i+c.PreUse)%2 == 0 {
+				drop[n] = true
+			}
+		}
+		if small := ref.Restrict(c.Tree, func(n string) bool { return !drop[n] }); small != nil && len(small.Tips()) >= 4 && len(small.Ch) >= 2 {
+			if st, perr := gt.FromModel(small); perr == nil {
+				st.RemoveTips(false, arg...)
+			}
+		}
+	}
+	if err := t.RemoveTips(c.Revert, arg...); err != nil {
 		return fmt.Errorf("RemoveTips failed: %v", err)
 	}
 	if err := gt.Structural(t); err != nil {
@@ -540,6 +560,13 @@ func TestC06Cli(t *testing.T) {
 				c.More = append(c.More, withExtraTips(t, c.Tree, rapid.IntRange(1, 3).Draw(t, "nextra")))
 			}
 			c.First = rapid.Bool().Draw(t, "morefirst")
+			if len(c.More) > 0 && c.Mode != "random" && rapid.Bool().Draw(t, "listextra") {
+				// the list also names tips that only some trees of the stream have
+				c.Names = append(c.Names, "zx1")
+				if rapid.Bool().Draw(t, "listextra2") {
+					c.Names = append([]string{"zx2"}, c.Names...)
+				}
+			}
 			return c
 		},
 		Check: checkCli,
